@@ -63,7 +63,7 @@ def main():
             props = [pid] if "--all-props" not in sys.argv else [f"C{i:02d}" for i in range(1, 19)]
             for p in props:
                 t0 = time.time()
-                r = sh(f"cd {VERIF} && ./check {p} --tier {tier}", env=env, timeout=3600)
+                r = sh(f"cd {VERIF} && ./check {p} --tier {tier}", env=env, timeout=1800)
                 viol = [ln for ln in r.stdout.splitlines() if ln.startswith("VIOLATION")]
                 row[f"check_{p}"] = {"rc": r.returncode, "violations": [v[:260] for v in viol[:3]], "wall": round(time.time() - t0, 1)}
         finally:
